@@ -45,8 +45,28 @@ def make_case(seed, tier):
         if it.k == 'Namespace':
             paths.append(path + (it.name,))
     top = r.choice(paths) if r.random() < 0.3 else ()
-    ser = False
+    ser = r.random() < 0.4
+    if r.random() < 0.5:
+        mod = S.Module(mod.items + directed_fragment(r, seed))
     return mod, {'top': list(top), 'ignore': [], 'ser': ser}
+
+
+def directed_fragment(r, seed):
+    """constructs the property text names explicitly, mixed into the random model: a serializable class template
+    with two parameters instantiated through a typedef with `unsigned char` (comma and blank in the C++ spelling),
+    nested template arguments, defaults with brackets and quotes."""
+    n = 'dir%d' % (seed % 1000)
+    T, U = S.T('T'), S.T('U')
+    cls = S.Class('Ser' + n, (
+        S.Ctor('Ser' + n, ()),
+        S.Method('serialize', S.VOID, ()),
+        S.Method('get', T, (S.Arg(S.T('vector', ('std',), (S.T('vector', ('std',), (S.T('double'),)),), True, '&'), 'rows'),
+                            S.Arg(U, 'u'), S.Arg(S.T('string'), 'label', r.choice(['"a(b)[c]{d}"', '"q\\"uote"', '"x, y"']))), True),
+        S.Method('vec', S.T('vector', ('std',), (T,)), (S.Arg(S.T('vector', ('std',), (U,), True, '&'), 'us'),), True),
+    ), (S.TParam('T', None), S.TParam('U', None)))
+    a1 = r.choice([S.T('unsigned char'), S.T('char'), S.T('double')])
+    a2 = r.choice([S.T('double'), S.T('unsigned char'), S.T('size_t')])
+    return (S.Namespace(n, (cls, S.Typedef(S.T('Ser' + n, (n,), (a1, a2)), 'Alias' + n.capitalize()))),)
 
 
 def text_monitors(out, mod, acc):
